@@ -471,7 +471,7 @@ func TestVerifC39(t *testing.T) {
 			runOne(cs)
 		}
 		r := vNewRand(vSeed())
-		n := vN(300, 2400)
+		n := vN(240, 2400)
 		for i := 0; i < n; i++ {
 			runOne(c39Gen(r.Fork(), i))
 		}
